@@ -19,7 +19,8 @@ PROP = 'C10'
 LEVEL = 'exploration'
 SHARDS = {'thorough': 16}
 
-MEMBERS = ['Alpha', 'Beta', 'Gamma', 'Delta']
+MEMBERS = ['Alpha', 'Beta', 'Gamma', 'Delta', 'Ping', 'Introspect', 'GetManagedObjects']   # the last three collide
+# with members of the standard interfaces every object answers itself: only a call NAMING that standard interface is theirs
 SIGS_IN = ['', 's', 'i', 'si', 'as', '(is)', 'a{ss}', 'sv', 'ss', 'ai', 'sas', 'x', 'sd']
 SIGS_OUT = ['', 's', 'i', 'si', 'as', '(is)', 'a{ss}', 'v', 'ss', 'ai', 'isas', 'sx']
 SENDER = ':1.77'
@@ -341,6 +342,30 @@ def run_case(ctx, seed, idx):
             ctx.report('crash', 'exporting connection crashed with %r' % peer.ep.crashes[0], w, case)
             return
         judge(ctx, d, calls, msgs, w, case)
+        if idx % 4 == 0:
+            # the standard Peer.Ping, which the connection answers itself: one empty return to the caller, no user code
+            # (also when the object declares a member called Ping on an interface of its own)
+            serial += 1
+            no_reply = idx % 8 == 0
+            before = len(LOG)
+            peer.send(RM.build(RM.METHOD_CALL, serial, {'path': r.choice([d.path, '/not/exported']), 'member': 'Ping',
+                                                        'interface': 'org.freedesktop.DBus.Peer', 'sender': SENDER,
+                                                        'destination': clientfix.UNIQUE}, '', [], True,
+                               flags=RM.NO_REPLY_EXPECTED if no_reply else 0))
+            got = peer.take()
+            ctx.count('evaluations')
+            pw = dict(w, ping_serial=serial, replies=[_describe(m) for m in got], no_reply=no_reply)
+            if len(LOG) != before:
+                ctx.report('user-code-ran', 'user code ran for org.freedesktop.DBus.Peer.Ping', pw, case)
+            elif len(got) > 1:
+                ctx.report('two-replies', 'Peer.Ping received %d replies' % len(got), pw, case)
+            elif len(got) == 1 and not (got[0].mtype == RM.METHOD_RETURN and got[0].fields.get('reply_serial') == serial and
+                                        got[0].fields.get('destination') == SENDER and not got[0].body):
+                ctx.report('ping-reply', 'Peer.Ping answered with %s' % _describe(got[0]), pw, case)
+            elif not got and not no_reply:
+                ctx.report('ping-reply', 'Peer.Ping got no reply', pw, case)
+            else:
+                ctx.count('pings_ok')
     except RM.CodecError as e:
         ctx.report('malformed-reply', 'a reply written by the exporter is not a well-formed message: %s' % e,
                    {'idx': idx}, case)
